@@ -123,8 +123,10 @@ def run(ctx):
     ctx.level = "model_checking"
     # 1. model: implementation layer => property layer, exhaustive box
     cfg = "mc/Windows_quick.cfg" if ctx.quick else "mc/Windows_thorough.cfg"
-    r = tlc.run("lib/Windows.tla", cfg, workers=8 if ctx.quick else 16, timeout=3000, heap="8g")
+    r = tlc.run("lib/Windows.tla", cfg, workers=8 if ctx.quick else 16, timeout=3000, heap="8g", coverage=True)
     ctx.tlc(r, cfg)
+    if r.ok:
+        tlc.require_all_actions_taken(r)
     if not r.ok:
         st = r.error_trace[-1] if r.error_trace else {}
         sc = {k: v for k, v in st.items() if not k.startswith("_")}
